@@ -24,6 +24,9 @@ pub struct Obj {
     pub addr: usize,
     pub ever_recorded: bool,
     pub selfsame: u32,
+    /// some bookkeeping call (incl. same-handle self adoption) has touched the table:
+    /// its storage may stay allocated, empty, for the rest of the object's life
+    pub had_table: bool,
     pub destroyed_seq: Option<usize>,
     /// destroyed (or left behind) by a call out of which a panic propagated
     pub interrupted: bool,
@@ -82,6 +85,7 @@ pub struct Model {
     pub addr_map: BTreeMap<usize, (Id, u32)>,
     pub old_allocs: Vec<OldAlloc>,
     pub want_snaps: bool,
+    pub stale_destruction: bool,
     pub next_auto_id: Id,
 }
 
@@ -193,6 +197,8 @@ impl Model {
         *self.adopt.entry((owner, target)).or_insert(0) += 1;
         self.obj_mut(owner).ever_recorded = true;
         self.obj_mut(target).ever_recorded = true;
+        self.obj_mut(owner).had_table = true;
+        self.obj_mut(target).had_table = true;
         self.recompute_p();
     }
 
@@ -325,19 +331,24 @@ impl Model {
         if canary != CANARY ^ id as u64 {
             return Verdict::Bad { kind: "corrupt-value", cause: "canary".into(), msg: format!("object {id} destroyed with corrupt canary {canary:#x}") };
         }
-        if x.rc && self.must_live().contains(&id) {
-            let cause = if !self.p_ok && self.elided && !self.over_recorded && self.stale_record_explains(id) {
-                "stale-record-explains-orphan"
-            } else if !self.p_ok && self.elided {
-                "elided-unadopt-other"
-            } else {
-                "reachable-object-destroyed"
-            };
-            return Verdict::Bad {
-                kind: "premature-destruction",
-                cause: cause.into(),
-                msg: format!("object {id} destroyed while reachable from a handle the program holds (phys={}, p_ok={})", self.phys(id), self.p_ok),
-            };
+        if x.rc {
+            // K1 signature: evaluated on the ledger snapshot taken when the release
+            // that triggered this teardown began (the live ledger is purged as the
+            // members die, so it cannot be used)
+            let explained = self.elided && !self.over_recorded && self.stale_record_explains(id);
+            if self.must_live().contains(&id) {
+                let cause = if explained { "stale-record-explains-orphan" } else { "reachable-object-destroyed" };
+                return Verdict::Bad {
+                    kind: "premature-destruction",
+                    cause: cause.into(),
+                    msg: format!("object {id} destroyed while reachable from a handle the program holds (strong handles in existence: {}, recorded<=held: {}, an unadopt was elided: {})", self.phys(id), self.p_ok, self.elided),
+                };
+            }
+            if explained {
+                // an unreachable object destroyed only because of a stale record:
+                // allowed by the upper bound, but handles to it may still exist
+                self.stale_destruction = true;
+            }
         }
         let seq = self.destroyed_log.len();
         let x = self.objs.get_mut(&id).unwrap();
